@@ -52,6 +52,7 @@ PROP = dict(
           "block of height + CltvInterceptDelta when submitted, or (c) is held "
           "while a block within +-1 of its auto-fail height arrives."),
     assumptions=[
+        'switch test (fourth session): outgoing links come in three flavours - regular, public zero-conf with a confirmed funding transaction (alias kept as ShortChanID; addressed by alias or confirmed scid), public option-scid-alias (addressed by the confirmed scid or an alias); private alias channels are left out (their failures hide the channel_update on purpose)',
         "realistic domain: block height <= 2^32-1-2^17 and OutgoingCltvRejectDelta, MaxOutgoingCltvExpiry <= 2^16, so height+delta cannot wrap uint32 (wrapping heights are generated, run for crashes only and counted as outside_domain)",
         "realistic domain: incoming HTLC amount <= 1e13 msat (100 BTC, 10x lnd's wumbo channel limit); outbound fee rate <= 1e6 ppm (100%); base fee <= 2^32-1 (the advertised field is 32 bit); outgoing (onion) amount and both expiries range over their whole integer type",
         "the inbound fee rate clamp to +-10x and the separate truncation toward zero of the inbound component are taken from lnd's documentation of InboundFee.CalcFee as the specified rounding",
